@@ -1029,12 +1029,26 @@ def _dig(obj):
     return hashlib.sha256(json.dumps(obj, sort_keys=True, default=repr).encode()).hexdigest()
 
 
-def _go(fn, case):
-    """Run (part of) a simulation; an exception is an observation like any other."""
+class _Watchdog(Exception):
+    pass
+
+
+def _go(fn, case, limit=40):
+    """Run (part of) a simulation; an exception is an observation like any other, and so is not terminating
+    (the simulations of this file take well under a second)."""
+    import signal
+
+    def on_alarm(signum, frame):
+        raise _Watchdog("no termination within %d s" % limit)
+    old = signal.signal(signal.SIGALRM, on_alarm)
+    signal.alarm(limit)
     try:
         fn(case.sim)
     except Exception as e:
         case.obs["exception"] = [type(e).__name__, str(e)[:200]]
+    finally:
+        signal.alarm(0)
+        signal.signal(signal.SIGALRM, old)
 
 
 def _trace(case):
@@ -1222,6 +1236,10 @@ def _files_digest(files):
     return h.hexdigest()
 
 
+def _per_file(files):
+    return {n: hashlib.sha256(c.encode("utf-8") if isinstance(c, str) else c).hexdigest()[:12] for n, c in files.items()}
+
+
 def _listing(root):
     out = {}
     for dp, dn, fn in os.walk(root):
@@ -1245,7 +1263,7 @@ def run_plan_history(name, scratch):
         plat, top = mk()
         p = plat.build(top, do_build=False)
         plans.append(p)
-        ev.append(("plan_files", phase, _files_digest(p.files), sorted(p.files)))
+        ev.append(("plan_files", phase, _files_digest(p.files), _per_file(p.files)))
         ev.append(("plan_digest", phase, p.digest().hex(), None))
     ev.append(("plan_digest", "same_object_again", plans[0].digest().hex(), None))
     for phase, p in (("first", plans[0]), ("same_object_again", plans[0]), ("rebuilt", plans[1])):
@@ -1268,7 +1286,7 @@ def run_plan_history(name, scratch):
         if os.getcwd() != cwd:
             raise RuntimeError("extract changed the working directory")
         ls = _listing(root)
-        ev.append(("extract_listing", phase, _files_digest(ls), sorted(ls)))
+        ev.append(("extract_listing", phase, _files_digest(ls), _per_file(ls)))
         shutil.rmtree(root, ignore_errors=True)
     return ev
 
@@ -1512,7 +1530,7 @@ def run_children(ctx, seeds, job, tag):
         env = {"PATH": os.environ.get("PATH", "/usr/bin:/bin"), "PYTHONHASHSEED": str(seed), "PYTHONPATH": REPO,
                "VERIF_REPO": REPO, "C09_JOB": jp, "HOME": d, "TMPDIR": d, "AMARANTH_VERIF": "1"}
         pr = subprocess.run([sys.executable, "-c", _CHILD % VERIF], env=env, cwd=d, stdout=subprocess.PIPE,
-                            stderr=subprocess.STDOUT, text=True, timeout=3000)
+                            stderr=subprocess.STDOUT, text=True, timeout=2400)
         if pr.returncode != 0 or not os.path.exists(rp):
             raise MachineryError("child interpreter %d (PYTHONHASHSEED=%s) failed:\n%s" % (p, seed, pr.stdout[-3000:]))
         res = json.load(open(rp))
@@ -1590,6 +1608,9 @@ def _describe(m, step, clause, results):
                 txt += "\n  first difference of the two RTLIL texts: " + _first_difference(a, b)
         except OSError:
             pass
+    elif isinstance(payload, dict) and isinstance(f[5], dict) and m["family"] == "plan":
+        diff = sorted(n for n in set(payload) | set(f[5]) if payload.get(n) != f[5].get(n))
+        txt += "\n  files that differ (name: there / here): %s" % ", ".join("%s: %s / %s" % (n, f[5].get(n, "absent"), payload.get(n, "absent")) for n in diff)
     elif payload is not None and f[5] is not None and kind != "sim_trace":
         txt += "\n  there: %s\n  here:  %s" % (json.dumps(f[5])[:400], json.dumps(payload)[:400])
     elif kind == "sim_trace":
@@ -1611,16 +1632,21 @@ def judge(ctx, results, seeds, names, stage):
     from .. import tracecheck
     hs, meta = build_histories(results, seeds, names)
     verdicts = tracecheck.validate(ctx, "ReproTrace", hs, stage, cfg=CFG_TRACE)
-    n_rej = 0
+    rej = []
+    summary = {}
     for v, m, h in zip(verdicts, meta, hs):
         for e in h["events"]:
             ctx.case((m["family"], m["name"], e["kind"], e["proc"], e["phase"]))
         if v[0] == "REJ":
-            n_rej += 1
-            step, clause = v[1], v[2]
-            key = {"clause": clause, "design": m["name"], "feature": _feature(m["family"], m["name"])}
-            ctx.violation(key, _describe(m, step, clause, results),
-                          replay={"family": m["family"], "name": m["name"], "seeds": seeds, "clause": clause})
+            key = {"clause": v[2], "design": m["name"], "feature": _feature(m["family"], m["name"])}
+            k2 = "%s / %s" % (key["clause"], key["feature"])
+            summary[k2] = summary.get(k2, 0) + 1
+            rej.append((summary[k2] > 1, m["name"].startswith("gen_"), len(rej), key, m, v))
+    # one of every kind first, the hand-written catalogue before the generated designs (only the first 50 are described)
+    for _dup, _gen, _i, key, m, v in sorted(rej, key=lambda r: r[:3]):
+        ctx.violation(key, _describe(m, v[1], v[2], results),
+                      replay={"family": m["family"], "name": m["name"], "seeds": seeds, "clause": v[2]})
+    ctx.cov["rejected_histories_by_clause_and_feature"] = summary
     return hs, meta, verdicts
 
 
@@ -1659,7 +1685,7 @@ def stage_histories(ctx, designs, canon, alls):
     seeds = [0, 0] + (list(range(1, 16)) if th else [1, 2, 3])        # interpreters 0 and 1 share a hash seed
     if ctx.seed:
         seeds = seeds[:2] + [1000 * ctx.seed + s for s in seeds[2:]]
-    n_gen = 300 if th else 16
+    n_gen = 600 if th else 16
     gen0 = 1000 * ctx.seed
     names = {"rtlil": sorted(CATALOGUE) + ["gen_%d" % (gen0 + k) for k in range(n_gen)], "sim": sorted(SIMS), "plan": sorted(PLANS)}
     have = {}
@@ -1707,14 +1733,15 @@ def stage_histories(ctx, designs, canon, alls):
             ev[idx[len(idx) // 2]]["digest"] = big
         bad.append({"events": ev})
         want.append(clause)
-    if len(bad) < 3:
+    if len(bad) < 3 and not ctx.violations and not ctx.known_hits:
         raise MachineryError("binding demo: not enough accepted histories to corrupt (%d)" % len(bad))
-    vs = tracecheck.validate(ctx, "ReproTrace", bad, "binding-demo", cfg=CFG_TRACE, count_states=False)
-    ctx.cov["traces_validated_against_impl"] -= len(bad)
-    for v, w in zip(vs, want):
-        if v[0] != "REJ" or not str(v[2]).startswith(w):
-            raise MachineryError("binding demo: corrupted history not rejected as %s: %r" % (w, v))
-    ctx.cov["stages"]["binding-demo/validate"]["corrupted_rejected"] = [list(map(str, v)) for v in vs]
+    if bad:
+        vs = tracecheck.validate(ctx, "ReproTrace", bad, "binding-demo", cfg=CFG_TRACE, count_states=False)
+        ctx.cov["traces_validated_against_impl"] -= len(bad)
+        for v, w in zip(vs, want):
+            if v[0] != "REJ" or not str(v[2]).startswith(w):
+                raise MachineryError("binding demo: corrupted history not rejected as %s: %r" % (w, v))
+        ctx.cov["stages"]["binding-demo/validate"]["corrupted_rejected"] = [list(map(str, v)) for v in vs]
 
     ctx.cov["exhaustive"] = False
     ctx.cov["rule"] = ("case = one Observe event = (design, artefact kind, interpreter, phase); all distinct.  RTLIL: %d catalogue designs + %d "
